@@ -179,7 +179,7 @@ PROPS.update({
 })
 
 
-PARSE_RULE = ("random cobra trees (1-4 commands nested arbitrarily, aliases, hidden / deprecated commands, DisableFlagParsing, non-interspersed commands; 0-4 flags per command of kind bool / count / string / stringSlice / optional-argument, shorthands from a pool of six letters so that chains collide, persistent flags, hidden / deprecated / shorthand-deprecated flags, one or two mutually exclusive groups; one case in ten: flags of the carapace-pflag fork - `Nargs` 2 / 3 / -1 on slice flags, a custom `OptargDelimiter` (`:` `/` `%`) on long flags and, rarely, on a flag with a shorthand; 0-2 positional completions + any, 0-1 dash completions + any - every slot registered with a distinct marker value) "
+PARSE_RULE = ("random cobra trees (1-4 commands nested arbitrarily, aliases, hidden / deprecated commands, sub-commands in cobra groups, sub-commands added to their parent by the parent's carapace PreRun at completion time, DisableFlagParsing, non-interspersed commands; 0-4 flags per command of kind bool / count / string / stringSlice / optional-argument, shorthands from a pool of six letters so that chains collide, persistent flags, hidden / deprecated / shorthand-deprecated flags, one or two mutually exclusive groups; one case in ten: flags of the carapace-pflag fork - `Nargs` 2 / 3 / -1 on slice flags, a custom `OptargDelimiter` (`:` `/` `%`) on long flags and, rarely, on a flag with a shorthand; 0-2 positional completions + any, 0-1 dash completions + any - every slot registered with a distinct marker value) "
               "x lines of 0-5 earlier words built by a grammar (`--f v`, `--f=v`, `-f v`, `-fv`, shorthand chains, `--`, empty words, lone `-`, positionals, sub-command names and aliases, unknown flags) and a current word (empty, `-`, `--`, partial names, chains, `--f=`, `-f=`, `--f<d>`, `--f<d>partial`; for `Nargs` flags runs of words with `-`, `--`, flags and empty words inside); every offered candidate is appended to the line and the line is executed by the program's own parser on a fresh tree; non-trivial = at least one candidate was offered; distinct = distinct input digest")
 PARSE_ASSUME = ["cobra's TraverseChildren is not generated; the fork's Nargs, custom OptargDelimiter, tolerated unknown flags and its non-POSIX mode (a shorthand that is a word, ShorthandOnly / NameAsShorthand flags; one case in 16) are generated and covered by the general models (ForkG / TraverseG / PflagG); the theorems about slots are about POSIX flag sets", "commands accept arbitrary positional arguments (cobra.ArbitraryArgs), so that acceptance depends on flags and dispatch only",
                 "the default `completion` command is disabled; the default help command and flag are cobra's"]
